@@ -130,7 +130,7 @@ static void canon(qtreetbl_t *t, const model_t *m, int withwalk, char *out) {
 }
 
 /* ------------------------------------------------------------------ operations */
-enum { OP_PUT, OP_REMOVE, OP_CLEAR, OP_WALK, OP_ABANDON, OP_NEAREST, OP_NEARWALK, OP_CYCLE, OP_WALKREMOVE, OP_PUTALIAS };
+enum { OP_PUT, OP_REMOVE, OP_CLEAR, OP_WALK, OP_ABANDON, OP_NEAREST, OP_NEARWALK, OP_CYCLE, OP_WALKREMOVE, OP_PUTALIAS, OP_PUTHUGE };
 typedef struct { int kind, k, v, j, nm; const char *label; } op_t;
 static op_t OPS[512]; static int NOPS; static int MODE_WALK, WITH_CYCLES;
 static blob_t PROBE[2 * MAXU + 2]; static int NPROBE;
@@ -317,6 +317,14 @@ static int apply(qtreetbl_t *t, model_t *m, const op_t *op, int check, const cha
             if (check && !r) vc_viol("map:put-failed", "%s: put of the table's own value buffer returned false", after);
             break;
         }
+        case OP_PUTHUGE: {   /* a value size no allocator can satisfy: the put must fail (ENOMEM) and - like every failed operation - leave map and tree as they were */
+            void *kb = fresh(KEY[op->k].b, KEY[op->k].n); static char one[1] = {'x'};
+            errno = 0; bool r = is_strcfg() ? t->put(t, kb, one, SIZE_MAX / 2) : t->putobj(t, kb, KEY[op->k].n, one, SIZE_MAX / 2); int e = errno;
+            scribble(kb, KEY[op->k].n); n_scribbled++;
+            if (check && r) vc_viol("map:put-huge", "%s: put of a value of SIZE_MAX/2 bytes returned true", after);
+            else if (check && e != ENOMEM) vc_viol("map:put-huge", "%s: put of a value of SIZE_MAX/2 bytes refused with errno %d, not ENOMEM", after, e);
+            break;
+        }
         case OP_WALKREMOVE: do_walkremove(t, m, op->j, check, after); break;
         case OP_NEAREST: return do_nearest(t, m, op->k, 0, op->nm, check, after);
         case OP_NEARWALK: return do_nearest(t, m, op->k, 1, op->nm, check, after);
@@ -328,7 +336,8 @@ static void build_ops(void) {
     NOPS = 0;
     for (int k = 0; k < U; k++) for (int v = 0; v < NV; v++) OPS[NOPS++] = (op_t){OP_PUT, k, v, 0, 0, is_strcfg() ? "qtreetbl_put" : "qtreetbl_putobj"};
     for (int k = 0; k < U; k++) OPS[NOPS++] = (op_t){OP_REMOVE, k, 0, 0, 0, is_strcfg() ? "qtreetbl_remove" : "qtreetbl_removeobj"};
-    if (!MODE_WALK) { OPS[NOPS++] = (op_t){OP_CLEAR, 0, 0, 0, 0, "qtreetbl_clear"}; if (NV > 1) for (int k = 0; k < U; k++) OPS[NOPS++] = (op_t){OP_PUTALIAS, k, 0, 0, 0, is_strcfg() ? "qtreetbl_put" : "qtreetbl_putobj"}; return; }
+    if (!MODE_WALK) { OPS[NOPS++] = (op_t){OP_CLEAR, 0, 0, 0, 0, "qtreetbl_clear"}; if (NV > 1) for (int k = 0; k < U; k++) OPS[NOPS++] = (op_t){OP_PUTALIAS, k, 0, 0, 0, is_strcfg() ? "qtreetbl_put" : "qtreetbl_putobj"};
+        for (int k = 0; k < U; k++) OPS[NOPS++] = (op_t){OP_PUTHUGE, k, 0, 0, 0, is_strcfg() ? "qtreetbl_put" : "qtreetbl_putobj"}; return; }
     OPS[NOPS++] = (op_t){OP_CLEAR, 0, 0, 0, 0, "qtreetbl_clear"};     /* clear() keeps the traversal epoch machinery consistent as well */
     OPS[NOPS++] = (op_t){OP_WALK, 0, 0, 0, 0, "qtreetbl_getnext"};
     OPS[NOPS++] = (op_t){OP_WALK, 0, 0, 0, 1, "qtreetbl_getnext"};
@@ -437,7 +446,7 @@ static int search(int maxdepth) {
                         if (strcmp(ckey, ckey2)) { printf("NOTE\treplay divergence on %s\n", key); vc_stat_add("replay_divergence", 1); }
                     }
                     if (b.nnodes <= 3 || (b.nnodes % 50000) == 0) {
-                        static const char *KN[] = {"put", "remove", "clear", "walk", "abandon-after", "nearest", "nearest+walk", "one-step-walks x", "walk-removing-element"};
+                        static const char *KN[] = {"put", "remove", "clear", "walk", "abandon-after", "nearest", "nearest+walk", "one-step-walks x", "walk-removing-element", "put-own-value", "put-unallocatable"};
                         char txt[700], *q = txt; int shown = d > 12 ? 12 : d;
                         if (d > shown) q += sprintf(q, "... (%d earlier ops) ", d - shown);
                         for (int i = d - shown; i <= d && q - txt < 600; i++) { const op_t *o = &OPS[i < d ? hist[i] : op]; q += snprintf(q, 48, "%s(%d%s) ", KN[o->kind], o->kind == OP_ABANDON || o->kind == OP_CYCLE || o->kind == OP_WALKREMOVE ? o->j : o->k, o->kind == OP_PUT ? (o->v == 0 ? ",v0" : o->v == 1 ? ",v1" : o->v == 3 ? ",v1twin" : ",empty") : ""); }
